@@ -433,6 +433,10 @@ def _is_polytope(e):
     return e["spec"]["kind"] in ("box", "mesh", "hull") and not e["spec"].get("margin")
 
 
+def _nverts(e):
+    return 8 if e["spec"]["kind"] == "box" else len(e["spec"]["vertices"])
+
+
 def judge_c19_narrow(prop, k, op, o, ea, eb, budget=1000):
     st = o.get("st")
     fn = op["fn"]
@@ -448,8 +452,16 @@ def judge_c19_narrow(prop, k, op, o, ea, eb, budget=1000):
                    and not (_is_polytope(ea) and _is_polytope(eb)))
         if allowed:
             return None
-        return _v(prop, "K.narrow.exception", k, "%s raised %s: %s (%s)" % (desc, o.get("exc"), o.get("msg"),
-                                                                           o.get("where")))
+        v = _v(prop, "K.narrow.exception", k, "%s raised %s: %s (%s)" % (desc, o.get("exc"), o.get("msg"),
+                                                                        o.get("where")))
+        v["tags"] = []
+        if (o.get("ctx") or {}).get("partial_simplex"):
+            v["tags"].append("partial_simplex")
+        if _is_polytope(ea) and _is_polytope(eb):
+            v["tags"] += ["minkowski_vertices=%d" % (_nverts(ea) * _nverts(eb)),
+                         "minkowski_faces_can_exceed_64" if 2 * _nverts(ea) * _nverts(eb) - 4 > 64
+                         else "minkowski_faces_at_most_64"]
+        return v
     r = o.get("r") or {}
     for key, val in r.items():
         if key == "d" and val == MAX_FLOAT and r.get("p") is None:
@@ -475,17 +487,14 @@ def _cmp_narrow(fn, r, tw, L):
                 return "clip differs: %r vs fresh %r" % (r["d"], tw["d"])
         elif abs(r["d"] - tw["d"]) > 2 * tol:
             return "distance %.9g vs fresh %.9g (allowed difference %.3g)" % (r["d"], tw["d"], 2 * tol)
-    if "depth" in r and r.get("depth") is not None and tw.get("depth") is not None:
-        if abs(r["depth"] - tw["depth"]) > 2 * 2e-3 * L:
-            return "MPR depth %.9g vs fresh %.9g" % (r["depth"], tw["depth"])
+    # MPR's depth is not compared either: C08 bounds it from below only (it is the depth along the portal's ray, which
+    # legitimately depends on which of several tied support vertices a mesh returns).
     if "b" in r and "b" in tw and r["b"] != tw["b"]:
         clr = tw.get("clr")
         if clr is not None and clr > 1e-3 * L:
             return "boolean %s vs fresh %s although the fresh pair's clearance is %.3g > 1e-3*L" % (r["b"], tw["b"], clr)
-    if r.get("success") and tw.get("success") and "mtv" in r and "mtv" in tw:
-        a, b = float(np.linalg.norm(r["mtv"])), float(np.linalg.norm(tw["mtv"]))
-        if abs(a - b) > 2e-3 * L:
-            return "EPA depth %.9g vs fresh %.9g" % (a, b)
+    # EPA's translation vector is deliberately not compared: it depends on which (possibly lower-dimensional)
+    # simplex GJK happens to hand over, which is C07's subject and not a statement about update_pose.
     return None
 
 
@@ -539,7 +548,9 @@ def judge(plan, jr, prop="C03"):
             if v is None and prop == "C14" and st == "ok" and "tw" in o and kind in ("aabb", "center", "first", "c2o"):
                 a, b = np.array(o["v"], dtype=float), np.array(o["tw"], dtype=float)
                 L = _L1(e)
-                if a.shape != b.shape or not np.all(np.abs(a - b) <= 1e-9 * L):
+                same = a.shape == b.shape and bool(np.all((np.abs(a - b) <= 1e-9 * L) | (np.isnan(a) & np.isnan(b))
+                                                          | (a == b)))
+                if not same:
                     v = _v(prop, "K.%s.fresh" % kind, k, "%s of %s after %d update_pose call(s) differs from a fresh "
                            "collider at the last pose by %.3g" % (kind, e["spec"]["kind"], e["poses"],
                                                                   float(np.max(np.abs(a - b))) if a.shape == b.shape else -1))
@@ -644,6 +655,8 @@ def stats(plan, jr):
                     inc("probe.jolt_clip")
                 if r.get("d") == 0.0 or r.get("b") is True:
                     inc("probe.narrow_overlapping")
+                if r.get("partial_simplex"):
+                    inc("probe.epa_on_partial_simplex")
                 if "success" in r:
                     inc("probe.epa_ran")
                     if not r["success"]:
